@@ -2,6 +2,7 @@
 durably; nothing is left open.  spec/Indexing.tla (TLC-evaluated table of
 selected positions / IndexError) + lifecycle observations on the real object."""
 import multiprocessing as mp
+import random
 import os
 import shutil
 import tempfile
@@ -345,6 +346,85 @@ def _consume(a):
         raise RuntimeError('consumer fails')
 
 
+def _shared_job(batch):
+    from .. import shared
+    try:
+        return shared.replay_edges(_SH['g'], batch)
+    except Exception:
+        return [{'error': traceback.format_exc()}]
+
+
+_SH = {}
+
+
+def shared_handles(run, tier, seed):
+    """reads and writes through SEVERAL live handles on one directory: spec/Shared.tla (every handle reads the
+    current rows; what was written is in the raw file and seen by a fresh handle; lengths cached by stale handles)"""
+    from .. import shared
+    thorough = tier == 'thorough'
+    # the named deviations must be real in the model
+    for inv in ('NeverInconsistent', 'NeverPadded'):
+        rv, _ = shared.run_instance('C12_shared_' + inv, invariants=[inv], dump=False, MaxRows=3, InitLens=[1], Modes2=['r+'])
+        if rv.errors or not rv.violation:
+            raise Machinery('Shared.tla: %s is not violated - the stale-handle behaviour is not in the model' % inv)
+    r, g = shared.run_instance('C12_shared')
+    tlc.must_pass(r, 'MC_C12_shared')
+    tlc.check_coverage(r, ['H_Read', 'H_Append', 'H_Truncate', 'H_SetItem', 'H_Reopen'], 'MC_C12_shared')
+    run.tlc('Shared', r)
+    run.cov.setdefault('expected_model_violations', []).extend(['NeverInconsistent (StaleAppend)', 'NeverPadded (PadOnMap)'])
+    rnd = random.Random(seed)
+    groups = {}
+    for src, es in g.edges.items():
+        for (name, args, dst) in es:
+            groups.setdefault((src, name, tuple(map(_freeze, args))), [name, args, []])[2].append(dst)
+    keys = list(groups)
+    rnd.shuffle(keys)
+    # stratified: op x (handle up to date?) x (directory consistent?) x mode of the handle
+    cap = 400 if thorough else 22
+    seen, jobs = {}, []
+    from ..concretize import NUMTYPES, BYTEORDERS
+    for k in keys:
+        src = k[0]
+        st = g.nodes[src]
+        name, args, dsts = groups[k]
+        hl, md = shared._fmap(st['hlen']), shared._fmap(st['mode'])
+        h = args[0]
+        cls = (name, hl[h] == st['dlen'], st['dlen'] == len(st['rows']), md[h], hl[h] == 0,
+               args[1] if name in ('H_Truncate', 'H_Reopen') else None)
+        if seen.get(cls, 0) >= cap:
+            continue
+        seen[cls] = seen.get(cls, 0) + 1
+        j = len(jobs) + seed
+        ckey = (NUMTYPES[j % 13], BYTEORDERS[(j // 13) % 2], [(), (2,), (3, 2)][(j // 5) % 3], 1 + (j // 7) % 3)
+        jobs.append((src, name, args, dsts, ckey))
+    _SH['g'] = g
+    batches = [jobs[i:i + 20] for i in range(0, len(jobs), 20)]
+    res = []
+    with mp.get_context('fork').Pool(16) as pool:
+        for x in pool.imap_unordered(_shared_job, batches):
+            res.extend(x)
+    for x in res:
+        if 'error' in x:
+            raise Machinery('shared-handle replay failed: ' + x['error'])
+        run.add('shared_handle_edge_replays')
+        if x['mism']:
+            st = x['src']
+            stale = shared._fmap(st['hlen'])[x['args'][0]] != st['dlen']
+            run.violation('C12|shared|%s|%s|%s' % (x['name'], 'stale handle' if stale else 'up-to-date handle', x['mism'][0][0]),
+                          {'state': st, 'call': [x['name'], x['args']], 'mismatch': x['mism'], 'out': x['out'], 'exc': x['exc'],
+                           'config': x['cfg']}, {'kind': 'shared-edge', 'state': st, 'call': [x['name'], x['args']]})
+    run.add('shared_handle_edge_classes', len(seen))
+    run.add('traces_validated_against_impl', len(res))
+
+
+def _freeze(x):
+    if isinstance(x, (list, tuple)):
+        return tuple(_freeze(y) for y in x)
+    if isinstance(x, dict):
+        return tuple(sorted((k, _freeze(v)) for k, v in x.items()))
+    return x
+
+
 def run(tier, seed):
     run = Run('C12', tier, seed, 'model_checking')
     thorough = tier == 'thorough'
@@ -384,6 +464,7 @@ def run(tier, seed):
     run.add('numpy_oracle_cases_not_spec_decided', n)
     for b in bad:
         run.violation('C12|numpy-oracle|%s' % b['op'], b, {'kind': 'indexing-oracle', 'case': b})
+    shared_handles(run, tier, seed)
     run.cov['distinct_nontrivial'] = len(rows)
     run.add('traces_validated_against_impl', len(rows))
     run.cov['exhaustive'] = True
